@@ -7,7 +7,8 @@
 (*             distinct outcomes)                                           *)
 (*   Keys      NewLocalEncryptionHandler under master keys of given lengths *)
 (*   Publish / Subscribe / Pause / Resume / SetEnv / Restart / Tamper /     *)
-(*   CreateProbe / LeaderChange: a step on a running cluster (one or two    *)
+(*   CreateProbe / LeaderChange / Snapshot / Install: a step on a running   *)
+(*             cluster (one or two                                           *)
 (*             servers) with the projected state after                      *)
 (*             it (raw partition logs read back and decoded independently)  *)
 (* FAIL "P": the property is violated on real behaviour; FAIL "I": the real *)
@@ -62,6 +63,7 @@ JudgeKeys(e) ==
 \* ---- running server
 BindSrv(e) ==
   /\ up' = e.st.up /\ env' = e.st.env /\ lead' = e.st.lead /\ hk' = e.st.hk /\ paused' = e.st.paused /\ log' = e.st.log
+  /\ menc' = e.st.menc /\ snap' = e.st.snap
 
 ToSet(s) == {s[i] : i \in 1..Len(s)}
 
@@ -74,10 +76,12 @@ TraceInit ==
   LET e == Trace[1] IN
   /\ l = 2 /\ obs = [a |-> "Open"]
   /\ IF "st" \in DOMAIN e
-     THEN up = e.st.up /\ env = e.st.env /\ lead = e.st.lead /\ hk = e.st.hk /\ paused = e.st.paused /\ log = e.st.log
+     THEN /\ up = e.st.up /\ env = e.st.env /\ lead = e.st.lead /\ hk = e.st.hk /\ paused = e.st.paused /\ log = e.st.log
+          /\ menc = e.st.menc /\ snap = e.st.snap
      ELSE /\ up = TRUE /\ env = "k1" /\ lead = [s \in Streams |-> CHOOSE r \in Replicas : TRUE]
           /\ hk = [r \in Replicas |-> [s \in Streams |-> IF s = "enc" THEN "k1" ELSE "none"]]
           /\ paused = [s \in Streams |-> FALSE] /\ log = [r \in Replicas |-> [s \in Streams |-> <<>>]]
+          /\ menc = [r \in Replicas |-> [s \in Streams |-> s = "enc"]] /\ snap = [r \in Replicas |-> [s \in Streams |-> "none"]]
 
 TraceNext ==
   /\ Trace[l].a # "End"
@@ -102,7 +106,7 @@ TraceNext ==
             /\ Always(e)
             /\ Chk(up' => P_Tamper, "P", e, "C17_Quiet", 0)
             /\ Chk(DoTamper(e.args.r, e.args.j), "I", e, "Tamper", 0)
-       [] e.a \in {"Pause", "Resume", "SetEnv", "Restart", "CreateProbe", "LeaderChange"} ->
+       [] e.a \in {"Pause", "Resume", "SetEnv", "Restart", "CreateProbe", "LeaderChange", "Snapshot", "Install"} ->
             /\ BindSrv(e)
             /\ obs' = (IF e.a = "CreateProbe" THEN [a |-> e.a, ok |-> e.obs.ok] ELSE [a |-> e.a])
             /\ Always(e)
@@ -112,6 +116,8 @@ TraceNext ==
                      [] e.a = "SetEnv" -> DoSetEnv(e.args.k)
                      [] e.a = "Restart" -> DoRestart
                      [] e.a = "LeaderChange" -> DoLeaderChange(e.args.s)
+                     [] e.a = "Snapshot" -> DoSnapshot(e.args.r)
+                     [] e.a = "Install" -> DoInstall(e.args.r)
                      [] OTHER -> DoCreateProbe, "I", e, e.a, 0)
        [] OTHER -> Fail("C", e, "unknown-line", 0) /\ UNCHANGED vars
 
